@@ -235,7 +235,12 @@ fn get_ns(case: &Map<String, Value>, key: &str) -> Vec<u64> {
 
 fn case_file(case: &Map<String, Value>, dir: &std::path::Path, csv: bool) -> Vec<Value> {
     let bytes = get_bytes(case);
-    let path = dir.join("input.txt");
+    // a fresh name per case: workers of an earlier (panicked) job may still hold the old file
+    static NEXT: std::sync::atomic::AtomicU64 = std::sync::atomic::AtomicU64::new(0);
+    let path = dir.join(format!(
+        "input_{}.txt",
+        NEXT.fetch_add(1, std::sync::atomic::Ordering::Relaxed)
+    ));
     std::fs::write(&path, &bytes).expect("write input file");
     let header = case.get("header").and_then(|v| v.as_bool()).unwrap_or(true);
     let mut runs = vec![];
@@ -341,7 +346,6 @@ trait RInt: Copy + Send + Sync + 'static {
     const MAXV: i128;
     const NAME: &'static str;
     fn from128(v: i128) -> Option<Self>;
-    fn to128(self) -> i128;
     fn direct(lo: Self, hi: Self, index: u64, peers: u64) -> (i128, i128);
     fn job(lo: Self, hi: Self, n: u64) -> JobOut<i128>;
 }
@@ -354,9 +358,6 @@ macro_rules! impl_rint {
             const NAME: &'static str = stringify!($t);
             fn from128(v: i128) -> Option<Self> {
                 <$t>::try_from(v).ok()
-            }
-            fn to128(self) -> i128 {
-                self as i128
             }
             fn direct(lo: Self, hi: Self, index: u64, peers: u64) -> (i128, i128) {
                 let r = (lo..hi).generate_iterator(index, peers);
